@@ -14,8 +14,9 @@ LEVEL = "proof"
 ASSUMPTIONS = [
     "the DFS mirror (Solvor/Cp/Prop.lean) tries values in ascending order; CPython's set iteration order is "
     "not modelled, so nothing that depends on it is compared (no R_trace for DFS; solution *sets* only)",
-    "all variables are named (x0, x1, ...); unnamed variables (names starting with '_', hidden from results) and "
-    "empty domains (lb > ub) are outside the generator (excluded region)",
+    "unnamed variables (int_var without a name, hidden from results) are generated; for them the returned values "
+    "must extend to a solution (verified enumerator); empty domains (lb > ub) are outside the generator "
+    "(excluded region: the encoder drops such a variable, the DFS raises StopIteration)",
     "hints are hard restrictions in the code (domain cut / SAT assumptions); INFEASIBLE is judged against the "
     "solutions compatible with the in-domain hints (DESIGN §4 C05: 'hints only restrict')",
     "failures caused purely by solve_sat (a returned assignment that is not a model of the captured CNF, "
@@ -36,9 +37,12 @@ def gen_cases(rng, n_models, big):
     for _ in range(n_models):
         vars_, cons, plant = K.gen_model(rng, WEIGHTS, big)
         hints = K.gen_hints(rng, vars_, plant)
+        hidden = K.gen_hidden(rng, vars_)
+        if hints and hidden:
+            hints = {k: v for k, v in hints.items() if not (k[1:].isdigit() and int(k[1:]) in hidden)}
         limit = rng.choice([1, 1, 3, 100])
         for solver in ("auto", "dfs", "sat"):
-            cases.append({"vars": vars_, "cons": cons, "hints": hints, "limit": limit, "solver": solver})
+            cases.append({"vars": vars_, "cons": cons, "hints": hints, "limit": limit, "solver": solver, "hidden": hidden})
     return cases
 
 
@@ -64,6 +68,12 @@ def edge_cases():
                 yield {"vars": vars_, "cons": cons, "hints": None, "limit": limit, "solver": solver}
     yield {"vars": [[0, 1]], "cons": [["!=", V(0), C(0)]], "hints": {"x0": 0}, "limit": 1, "solver": "dfs"}
     yield {"vars": [[0, 1]], "cons": [["!=", V(0), C(0)]], "hints": {"x0": 7, "zz": 1}, "limit": 1, "solver": "sat"}
+    # unnamed (hidden) variables: three of them over 0..1 cannot be all different
+    for solver in ("auto", "dfs", "sat"):
+        yield {"vars": [[0, 1], [0, 1], [0, 1], [0, 1]], "cons": [["alldiff", [1, 2, 3]]], "hints": None, "limit": 1,
+               "solver": solver, "hidden": [1, 2, 3]}
+        yield {"vars": [[0, 2], [0, 2]], "cons": [["==", ["+", V(0), V(1)], C(3)]], "hints": None, "limit": 100,
+               "solver": solver, "hidden": [1]}
 
 
 # ---------------------------------------------------------------------------
@@ -103,6 +113,9 @@ def first_judgement(case, pcs, out, d):
             if path == "sat" and i < len(d["sat_model_checks"]) and not d["sat_model_checks"][i]:
                 res.append(("sat_backend:non_model", f"solve_sat returned an assignment that is not a model of the "
                             f"captured CNF (decoded to {s})", False))
+            elif code == 1000:
+                res.append((f"{path}:violated:no_hidden_extension", f"returned values {s} do not extend, on the unnamed "
+                            "variables, to an assignment satisfying the constraints", True))
             elif code == 1:
                 res.append((f"{path}:bad_value", f"returned assignment {s} does not give every named variable one "
                             "value inside its domain", True))
@@ -139,6 +152,7 @@ def run_cases(ctx, cases, attribute=True):
         ctx.count(f"limit:{case['limit']}")
         ctx.count("hints:" + ("none" if case["hints"] is None else "some" if case["hints"] else "empty"))
         ctx.count("truth:" + ("feasible" if d["sols"] else "infeasible"))
+        ctx.count("hidden_vars:" + ("some" if case.get("hidden") else "none"))
         for pc in pcs:
             key = f"{K.tag_of(pc)}|{case['solver']}->{path}"
             cov[key] = cov.get(key, 0) + 1
@@ -153,14 +167,14 @@ def run_cases(ctx, cases, attribute=True):
                 ctx.fail(FN, klass + tagset, what, rep)
         # agreement of the back-ends on satisfiability (same model, hints, limit)
         if out[0] == "ok" and st in ("OPTIMAL", "FEASIBLE", "INFEASIBLE"):
-            key = json.dumps([case["vars"], case["cons"], case["hints"], case["limit"]], sort_keys=True)
+            key = json.dumps([case["vars"], case["cons"], case["hints"], case["limit"], case.get("hidden")], sort_keys=True)
             groups.setdefault(key, []).append((case["solver"], st != "INFEASIBLE", bool(fails)))
         # soft tie of the DFS mirror: with a limit above the number of solutions the DFS path returns all of them
         if (out[0] == "ok" and path == "dfs" and st != "INFEASIBLE" and d["dfs"] is not None
-                and len(d["hint_sols"]) < case["limit"]):
+                and len(d["hint_sols"]) < case["limit"] and not case.get("hidden")):
             got = sorted(tuple(s) for s in (out[1]["sols"] or []) if None not in s)
             ctx.count("dfs_mirror_same_set" if got == sorted(tuple(s) for s in d["dfs"]) else "dfs_mirror_other_set")
-        canon = [case["vars"], case["cons"], case["hints"], case["limit"], case["solver"]]
+        canon = [case["vars"], case["cons"], case["hints"], case["limit"], case["solver"], case.get("hidden") or []]
         ctx.case(canon, K.nontrivial(case), {"case": case, "impl_status": st, "impl_sols": (out[1]["sols"] if out[0] == "ok" else None),
                                              "n_solutions": len(d["sols"]), "path": path})
     for g in groups.values():
